@@ -81,6 +81,7 @@ def run_items(chk, items, rule, extra_cov=None):
         'rule': rule, 'samples': samples,
         'solver_queries': cnt['queries'], 'solver_seconds': cnt['solver_s'],
         'vacuity_witnesses_sat': cnt['vacuity_witnesses'],
+        'slowest_queries': cnt.get('slowest_queries'), 'query_time_limit_s': max((it['timeout_ms'] for it in items), default=0) / 1000,
         'isa_table_validated_natively': {'witness_states_agreeing_with_the_real_cpu': cnt.get('native_validated', 0),
                                          'not_comparable': cnt.get('native_not_comparable', 0)},
         'per_kind': [{'isa': k[0], 'kind': k[1], 'N': k[2], 'shapes': v} for k, v in sorted(kinds.items())],
